@@ -105,11 +105,12 @@ func checkC15(c *Ctx) {
 		return
 	}
 	m := b.m
-	const G1, P1, O1, O2, D1, A1 = "C15.G1", "C15.P1", "C15.O1", "C15.O2", "C15.D1", "C15.A1"
+	const G1, P1, O1, O2, O3, D1, A1 = "C15.G1", "C15.P1", "C15.O1", "C15.O2", "C15.O3", "C15.D1", "C15.A1"
 	c.Rule(G1, "limits dominate appends and bookkeeping creation", 1)
 	c.Rule(P1, "shedding cannot fail: buffers are built with a logger", 1)
 	c.Rule(O1, "bookkeeping released with the topic", 1)
 	c.Rule(O2, "bookkeeping entered only together with a buffered message", 1)
+	c.Rule(O3, "every buffered message is counted for its sender", 1)
 	c.Rule(D1, "no comparison mixes clock domains", 1)
 	c.Rule(A1, "GC guard cannot disable collection; lastGC set to the epoch read", 1)
 	fSource := m.Field(PkgTypes, "IncMessage", "Source")
@@ -212,6 +213,36 @@ func checkC15(c *Ctx) {
 	if nTop == 0 {
 		c.Bad(G1, "msg", "topic bookkeeping", "-", "no per-sender topic bookkeeping found")
 	}
+	// O3: the converse — every message that is buffered has its (sender, topic) entered into the bookkeeping
+	// on the way (otherwise the per-sender topic limit does not count it)
+	nAdd := 0
+	for _, fn := range b.fns {
+		for _, in := range instrsOf(fn) {
+			cl, ok := in.(*ssa.Call)
+			if !ok || staticCallee(&cl.Call) != b.add {
+				continue
+			}
+			nAdd++
+			tracked := false
+			for _, g := range b.fns {
+				for _, in2 := range instrsOf(g) {
+					mu, ok := in2.(*ssa.MapUpdate)
+					if !ok || !b.isInnerTotals(mu.Map, 0) {
+						continue
+					}
+					if instrDominates(mu, cl) {
+						tracked = true
+					}
+				}
+			}
+			c.Check(tracked, O3, FuncName(fn), "buffered message is counted for its sender", m.Pos(cl.Pos()),
+				"totals[src][topic] = {} on every path to pendingMessages[topic].add(msg)",
+				"a message is buffered without its sender being entered into the topic's bookkeeping on every path (e.g. only the sender that opens the buffer is counted): the per-sender topic limit does not apply to such a sender, which can keep messages buffered for an unbounded number of topics")
+		}
+	}
+	if nAdd == 0 {
+		c.Bad(O3, "msg", "buffering call", "-", "no call of storedMessages.add found")
+	}
 	// O2: a topic entered into a sender's bookkeeping is paired with a buffered message of that sender
 	// (Send and sweep release bookkeeping only through the senders of the pendingMessages entry)
 	for _, fn := range b.fns {
@@ -271,8 +302,8 @@ func checkC15(c *Ctx) {
 
 	// ------------------------------------------------------------------ O1
 	dels := mapDeletesOfField(b.fns, b.fPending)
-	if len(dels) < 2 {
-		c.Bad(O1, "msg", "deletions from pendingMessages", "-", fmt.Sprintf("found %d deletions, expected Send and sweep", len(dels)))
+	if len(dels) < 1 {
+		c.Bad(O1, "msg", "deletions from pendingMessages", "-", "no deletion from pendingMessages found (Send and sweep must drop the buffers they are done with)")
 	}
 	for _, d := range dels {
 		fn := d.Parent()
